@@ -25,7 +25,17 @@ Streams
                                               (model: NcFile.lean applySteps  +  Python replay)
   C08.store   realised storage options: datatype mapping, endian, compress / shuffle / fletcher32, string vs
               char storage, unlimited dimensions, hdf5_chunks and per-data chunk settings, _FillValue typing
-                                              (oracle only: outside the model)
+                                              (model: NcStore.lean for the type of each variable, of its
+                                               _FillValue / missing_value and the extra string-length dimension;
+                                               everything else oracle only)
+  C08.field   1-3 fields in the input language of the whole-field model (axes with / without dimension
+              coordinate, on / off the data; 1-d and N-d auxiliary coordinates, cell measures, field ancillaries;
+              cell methods over any covered axis; clashing netCDF names; the later fields are mostly twins of an
+              earlier one, so that constructs take the already-in-the-file path)  ->  cfdm.write  ->  the dataset
+              (dimensions, unlimited flags, variables with dimensions and references) and, per field, data
+              variable / dimensions / coordinates / cell_methods axes, compared LITERALLY with the model's
+                                              (model: NcField.lean  +  WFFile, repeated-dimension test,
+                                               independent decoder, unlimited flags)
 """
 import atexit
 import ast
@@ -42,6 +52,7 @@ from .. import fw
 from .. import c08_file as CF
 from ..fw import Case
 from ..gen import fields_C08 as GF
+from ..gen import axes_C08 as GA
 
 REQUIRED = [
     "C08_names_fresh",
@@ -55,12 +66,22 @@ REQUIRED = [
     "C08_written_globals",
     "C08_written_globals_distinct",
     "C08_no_information_lost",
+    "C08_global_blocked",
+    "C08_global_order_independent",
     "C08_wf_step",
     "C08_wf_steps",
     "C08_wf_coordinates_partial",
+    "C08_fields_written",
+    "C08_fields_closure",
+    "C08_cell_method_axis_needs_cover",
+    "C08_old_dimension_name_counterexample",
+    "C08_old_equal_dimension_coordinates_counterexample",
+    "C08_fill_type_is_variable_type",
+    "C08_datatype_requested",
+    "C08_string_storage",
 ]
-BUDGET = {"quick": 8000, "thorough": 200000}
-QUICK_JOBS = 4
+BUDGET = {"quick": 7400, "thorough": 190000}
+QUICK_JOBS = 8
 TIME_LIMIT = {"quick": 170, "thorough": 1400}
 RULE = (
     "glob: 1-4 fields x 1-6 property names drawn from the description-of-file-contents attributes and free names, "
@@ -70,9 +91,17 @@ RULE = (
     "None, '', str, list or tuple with CF entries, blanks and commas. names: 1-3 fields from the shared generator "
     "or the example fields with 1-5 name mutations from a clashing pool. struct: 1-3 fields (random, example 0-7 and "
     "11, DSG-compressed examples, domains) x coordinates / fmt / string options. store: one field x fmt x datatype x "
-    "endian x compress x shuffle x fletcher32 x string x unlimited axes x hdf5_chunks x per-data chunks. "
+    "endian x compress x shuffle x fletcher32 x string x unlimited axes x hdf5_chunks x per-data chunks (four fifths "
+    "made representable in the chosen format, one fifth as drawn so that every documented refusal is met). "
+    "field: 1-3 fields of 1-4 axes (size 1-4, optional netCDF dimension name, unlimited flag, optional dimension "
+    "coordinate named by ncvar / standard name / nothing), data over a shuffled subset of the axes, 0-3 auxiliary "
+    "coordinates (1-d or 2-d), optional cell measure and field ancillary, 0-3 cell methods over covered axes or area; "
+    "60% of the later fields are twins of an earlier one with 0-2 alterations; glob: 30% of the multi-field cases are "
+    "also written in reverse order. "
     "non-trivial = glob: >= 2 fields or any option set; names: some request answered with a suffixed or reused "
-    "name; struct: >= 1 reference attribute in the file; store: any non-default option. distinct = distinct payloads"
+    "name; struct: >= 1 reference attribute in the file; store: any non-default option; field: any of axis without "
+    "dimension coordinate / coordinate off the data / N-d construct / cell methods / unlimited / shared construct. "
+    "distinct = distinct payloads"
 )
 ASSUMPTIONS = [
     "property values are compared exactly: numerically close but unequal values (inside cfdm's rtol/atol) and values "
@@ -80,6 +109,10 @@ ASSUMPTIONS = [
     "the Conventions *property* of a field is outside the placement theorem (write() handles Conventions through its "
     "own parameter and documents the property as ignored); the model still mirrors what the code does with it",
     "flat files only (groups are C11's subject); write mode 'w' (append is C17's); no external file",
+    "C08.field: uncompressed fields without bounds, domain ancillaries, coordinate references or geometries (those are "
+    "the subject of C08.struct / C08.emit); `scalar=False` is a parameter of NetCDFWrite.write that cfdm.write does "
+    "not expose: modelled, never driven; construct contents are exactly equal or clearly different (no values inside "
+    "cfdm's tolerance); when several fields share a dimension the unlimited flag is compared with the model only",
     "the naive decoder compares bounds by values only (bounds properties are inherited), ignores "
     "computed_standard_name (added by the writer), and does not decode geometry containers or ragged/gathered "
     "compression (those variables are checked by WFFile only)",
@@ -277,6 +310,8 @@ def gen_glob(rng):
              Conventions=rng.choice(CONV_POOL))
     if rng.random() < 0.03:
         p["variable_attributes"] = ["Conventions"]
+    if nf > 1 and rng.random() < 0.3:
+        p["perm"] = True  # also written with the fields in reverse order: same placement expected
     return p
 
 
@@ -337,6 +372,8 @@ def mk_glob(p):
         tags.append("glob:forced")
     if any(v is None for f in p["fields"] for v in f["ncg"].values()):
         tags.append("glob:flagged")
+    if p.get("perm"):
+        tags.append("glob:reversed-order-too")
     nontrivial = nf >= 2 or any(p[k] for k in ("global_attributes", "variable_attributes", "file_descriptors", "Conventions"))
     return Case("C08.glob", p, glob_line(p), nontrivial=nontrivial, tags=tags)
 
@@ -392,16 +429,30 @@ def impl_glob(c):
     finally:
         _rm(path)
     inputs = _input_tokens(p)
-    conv = A["globals"].get("Conventions")
-    glob = sorted((k, _file_token(v, inputs)) for k, v in A["globals"].items() if k != "Conventions")
-    vs = []
-    for i in range(len(fs)):
-        v = A["vars"].get(f"f{i}")
-        if v is None:
-            return f"missing-variable:f{i}"
-        vs.append(",".join(f"{k}~{t}" for k, t in sorted((k, _file_token(x, inputs)) for k, x in v["attrs"].items()
-                                                            if k not in CF.STRUCTURAL or k == "Conventions")))
-    return f"conv={enc(str(conv)) if conv is not None else '-'} glob=[{','.join(f'{k}~{t}' for k, t in glob)}] vars=[{';'.join(vs)}]"
+
+    def observe(A):
+        conv = A["globals"].get("Conventions")
+        glob = sorted((k, _file_token(v, inputs)) for k, v in A["globals"].items() if k != "Conventions")
+        vs = []
+        for i in range(len(fs)):
+            v = A["vars"].get(f"f{i}")
+            if v is None:
+                return f"missing-variable:f{i}"
+            vs.append(",".join(f"{k}~{t}" for k, t in sorted((k, _file_token(x, inputs)) for k, x in v["attrs"].items()
+                                                                if k not in CF.STRUCTURAL or k == "Conventions")))
+        return f"conv={enc(str(conv)) if conv is not None else '-'} glob=[{','.join(f'{k}~{t}' for k, t in glob)}] vars=[{';'.join(vs)}]"
+    out = observe(A)
+    if p.get("perm") and len(fs) > 1:
+        path2 = tmpfile("g")
+        try:
+            cfdm().write(glob_fields(p)[::-1], path2, **kw)
+            out2 = observe(CF.abstract_file(path2))
+        except Exception as e:
+            out2 = "raised:" + fw.exc_enum(e)
+        finally:
+            _rm(path2)
+        c.extra = dict(perm=None if out2 == out else out2)
+    return out
 
 
 def _rm(path):
@@ -456,6 +507,8 @@ def oracle_glob(c):
     parsed = _parse_out(out)
     if parsed is None:
         return f"unparseable observation {out[:80]}"
+    if isinstance(c.extra, dict) and c.extra.get("perm"):
+        return f"the placement depends on the order of the fields: reversed order gives {c.extra['perm'][:200]}"
     conv, glob, vs = parsed
     want = ["CF-" + cfdm().CF()] + extras
     if conv is None:
@@ -507,10 +560,18 @@ def gen_fieldspec(rng, heavy_names=False, allow_domain=True, examples=(0, 1, 2, 
         s = dict(k="ex", i=rng.choice(list(examples)))
         if s["i"] == 3 and rng.random() < 0.5:
             s["compress"] = rng.choice(["contiguous", "indexed"])
+    elif r < 0.26 and not heavy_names:
+        # compression by gathering (hand-built) / indexed contiguous ragged array: WFFile only
+        s = dict(k="gathered", seed=rng.randrange(1 << 30), compress="gathered")
+    elif r < 0.30 and not heavy_names:
+        s = dict(k="dsg3", seed=rng.randrange(1 << 30), compress="indexed_contiguous")
     else:
         s = dict(k="rand", seed=rng.randrange(1 << 30))
         if allow_domain and rng.random() < 0.08:
             s["domain"] = True
+        if not heavy_names and rng.random() < 0.1:
+            # a scalar parameter of a parametric vertical coordinate (when the field has one): `_write_scalar_data`
+            s["mut"] = [["ftparam", rng.choice(["p0", "ptop", "a"]), rng.choice([1000.0, 5.0])]]
     if heavy_names or rng.random() < 0.3:
         s["mut"] = GF.gen_mutations(rng, heavy=heavy_names)
     if not heavy_names and rng.random() < 0.15:
@@ -852,8 +913,17 @@ def _ft_conflict(fs):
                 for term, dk in cc.domain_ancillaries().items():
                     if dk is not None and dk in danc:
                         x = danc[dk]
-                        terms.append([term, CF.hash_array(x.data.array), sorted((a, CF.tok(b)) for a, b in x.properties().items()),
-                                      [f.domain_axes(todict=True)[ax].get_size() for ax in f.get_data_axes(dk)]])
+                        # the variable is shared only when it also stands on the same netCDF dimensions: the axes are
+                        # identified by their dimension coordinates (content and properties), else by their size
+                        axsig = []
+                        for ax in f.get_data_axes(dk):
+                            dcs = [d for k, d in dimc.items() if tuple(f.get_data_axes(k)) == (ax,)]
+                            if dcs:
+                                axsig.append([CF.hash_array(dcs[0].data.array), sorted((a, CF.tok(b)) for a, b in dcs[0].properties().items()
+                                                                                       if a != "computed_standard_name")])
+                            else:
+                                axsig.append(f.domain_axes(todict=True)[ax].get_size())
+                        terms.append([term, CF.hash_array(x.data.array), sorted((a, CF.tok(b)) for a, b in x.properties().items()), axsig])
                 t = json.dumps(sorted(terms))
                 if owner in seen and seen[owner] != t:
                     return True
@@ -1161,12 +1231,44 @@ def gen_store(rng):
         dst = {"i8": "i4", "f8": "f4", "i4": "i2"}.get(src, "f8")
         o["datatype"] = [[src, dst]]
     p = dict(field=s, opts=o)
+    if rng.random() < 0.8:
+        # most requests are made representable (a refused request exercises one `raise` only); a fifth are left
+        # as drawn, so that every documented refusal is still met
+        _make_representable(rng, p)
     if rng.random() < 0.05:
         # malformed request: must be refused, never written differently
         bad = rng.choice(["fmt", "hdf5_chunks", "endian", "compress"])
         p["bad"] = bad
         o[bad] = {"fmt": "NETCDF5", "hdf5_chunks": rng.choice(["foo", "12 parsecs"]), "endian": "middle", "compress": 10}[bad]
     return p
+
+
+def _make_representable(rng, p):
+    s, o = p["field"], p["opts"]
+    for _ in range(8):
+        reasons = store_refusal_allowed(p)
+        if not reasons:
+            return
+        r = reasons[0]
+        if r.startswith("datatype not in the classic"):
+            s["dtype"] = rng.choice(["f8", "f4", "i4", "i2", "i1"])
+            o.pop("datatype", None)
+            if s.get("fill") is not None:
+                s["fill"] = rng.choice([-99, 120])
+                if s.get("missing") is not None:
+                    s["missing"] = -98
+        elif r.startswith("documented: compression"):
+            for k in ("compress", "shuffle", "fletcher32"):
+                o.pop(k, None)
+        elif r.startswith("netCDF-3: native endian"):
+            o.pop("endian", None)
+        elif r.startswith("netCDF-3: one unlimited") or r.startswith("classic data model"):
+            s["unlimited"] = [0]
+        elif r.startswith("HDF5:"):
+            if s.get("chunks") == "contiguous":
+                s.pop("chunks")
+            if o.get("hdf5_chunks") == "contiguous":
+                o.pop("hdf5_chunks")
 
 
 def mk_store(p):
@@ -1179,7 +1281,49 @@ def mk_store(p):
         if p["field"].get(k) is not None and p["field"].get(k) is not False:
             tags.append(f"store:field.{k}")
     nontrivial = len(o) > 1 or o["fmt"] != "NETCDF4" or any(p["field"].get(k) for k in ("unlimited", "chunks"))
-    return Case("C08.store", p, None, nontrivial=nontrivial, tags=tags)
+    return Case("C08.store", p, store_line(p), nontrivial=nontrivial, tags=tags)
+
+
+def _store_vars(p):
+    """(netCDF name, dtype of the construct's data, dtype of its fill property or None, number of dimensions of
+    the construct) for the variables of a `simple` field whose names are known in advance."""
+    s = p["field"]
+    out = [("d", s["dtype"], "i8" if (s.get("fill") is not None or s.get("missing") is not None) else None, len(s["shape"]))]
+    if s.get("dimcoord") and s["shape"]:
+        out.append(("time", s.get("coord_dtype", "f8"), None, 1))
+    if s.get("straux") and s["shape"]:
+        out.append(("auxiliary", "U1", None, 1))
+    return out
+
+
+def store_line(p):
+    """The data-type part of a storage case, for the model (`NcStore`); None for malformed requests."""
+    o = p["opts"]
+    if p.get("bad") or o["fmt"] not in FMTS:
+        return None
+    m = ",".join(f"{a}>{b}" for a, b in o.get("datatype", []))
+    vs = ",".join(f"{n}:{d}:{fl or '-'}" for n, d, fl, _ in _store_vars(p))
+    return f"C08.dtype fmt={o['fmt']} string={int(bool(o.get('string', True)))} map=[{m}] vars=[{vs}]"
+
+
+def _dtype_code(x):
+    if x == "str":
+        return "str"
+    d = np.dtype(x)
+    return f"{d.kind}{d.itemsize}"
+
+
+def store_types_observed(p, view):
+    """What the file shows for the same variables: type / type of _FillValue (else missing_value) / extra dimensions."""
+    out = []
+    for n, _, _, nd in _store_vars(p):
+        v = view["vars"].get(n)
+        if v is None:
+            out.append(f"{n}=absent")
+            continue
+        fl = v.get("fill_dtype") or v.get("missing_dtype")
+        out.append(f"{n}={_dtype_code(v['dtype'])}/{_dtype_code(fl) if fl else '-'}/{len(v['dims']) - nd}")
+    return ";".join(out)
 
 
 def impl_store(c):
@@ -1391,8 +1535,149 @@ def oracle_store(c):
     return None
 
 
+
+# ============================================================================= stream: field
+def mk_field(p):
+    fs = p["fields"]
+    tags = [f"field:fields={len(fs)}"]
+    for k, v in sorted(p["opts"].items()):
+        if (k == "scalar") != bool(v):
+            tags.append(f"field:{k}={v}")
+    feats = set()
+    for F in fs:
+        na = len(F["axes"])
+        if any(a["dc"] is None and i in F["data"] for i, a in enumerate(F["axes"])):
+            feats.add("axis-without-dimcoord")
+        if any(a["dc"] is not None and i not in F["data"] for i, a in enumerate(F["axes"])):
+            feats.add("dimcoord-off-data")
+        if any(len(c["axes"]) > 1 for c in F["cons"]):
+            feats.add("nd-construct")
+        if any(c["t"] == "aux" and len(c["axes"]) == 1 and c["axes"][0] not in F["data"] for c in F["cons"]):
+            feats.add("aux-off-data")
+        if F["cms"]:
+            feats.add("cell-methods")
+        if any(a["unlim"] for a in F["axes"]):
+            feats.add("unlimited")
+        if any(a["dc"] is not None and not (a["dc"]["ncvar"] or a["dc"]["std"]) and a["ncdim"] for a in F["axes"]):
+            feats.add("dimcoord-named-by-dimension")
+        if _twin_dimcoords(F):
+            feats.add("twin-dimcoords")
+    if len(fs) > 1 and _shares(fs):
+        feats.add("shared-construct")
+    tags += ["field:" + x for x in sorted(feats)]
+    return Case("C08.field", p, GA.line(p), nontrivial=bool(feats), tags=tags)
+
+
+def _twin_dimcoords(F):
+    seen = set()
+    for a in F["axes"]:
+        d = a["dc"]
+        if d is not None:
+            k = (d["c"], a["size"], d["std"])
+            if k in seen:
+                return True
+            seen.add(k)
+    return False
+
+
+def _shares(fs):
+    seen = set()
+    for F in fs:
+        mine = set()
+        for a in F["axes"]:
+            if a["dc"] is not None:
+                mine.add(("dc", a["dc"]["c"], a["size"], a["dc"]["std"]))
+        for c in F["cons"]:
+            mine.add((c["t"], c["c"], tuple(F["axes"][i]["size"] for i in c["axes"]), c["std"]))
+        if mine & seen:
+            return True
+        seen |= mine
+    return False
+
+
+def impl_field(c):
+    p = c.payload
+    fs = [GA.build(F, i, CF.MARKER) for i, F in enumerate(p["fields"])]
+    path = tmpfile("x")
+    try:
+        cfdm().write(fs, path, coordinates=p["opts"]["coordinates"])
+    except Exception as e:
+        _rm(path)
+        c.extra = dict(error=repr(e)[:300])
+        return "raised:" + fw.exc_enum(e)
+    try:
+        A = CF.abstract_file(path)
+        info = dict(wf=CF.wf_py(CF.abstract_file(path, dedup_refs=True)), decode=None, repeated=None, unlim=None)
+        datavars = {str(v["attrs"][CF.MARKER]): n for n, v in A["vars"].items() if v["isData"]}
+        infos = []
+        if sorted(datavars) != [f"F{i}" for i in range(len(fs))]:
+            info["decode"] = f"{len(fs)} fields but data variables {sorted(datavars.items())}"
+        else:
+            D = CF.Decoder(path)
+            try:
+                for i, f in enumerate(fs):
+                    n = datavars[f"F{i}"]
+                    v = A["vars"][n]
+                    if len(set(v["dims"])) != len(v["dims"]) and info["repeated"] is None:
+                        info["repeated"] = f"data variable {n!r} has a dimension twice: {v['dims']} (CF 2.4)"
+                    cms = [a for a, _, _ in CF.parse_cell_methods(str(v["attrs"].get("cell_methods", "")))]
+                    infos.append(f"{n}>{','.join(v['dims'])}>{','.join(sorted(str(v['attrs'].get('coordinates', '')).split()))}>"
+                                 + ",".join("+".join(m) for m in cms))
+                    if info["decode"] is None and not info["repeated"]:
+                        try:
+                            diff = CF.compare(CF.abstract_field(f), D.field(n))
+                        except Exception as e:
+                            diff = f"decoder failed: {e!r}"[:200]
+                        if diff:
+                            info["decode"] = f"field {i} ({n}): {diff}"
+                    if info["unlim"] is None:
+                        info["unlim"] = _unlim_mismatch(p["fields"], i, v, A)
+            finally:
+                D.close()
+        c.extra = info
+        unl = sorted(n for n, (_, u) in A["dims"].items() if u)
+        return f"ok unlim=[{','.join(unl)}] {CF.dump_structure(A)} info=[{';'.join(infos)}]"
+    finally:
+        _rm(path)
+
+
+def _unlim_mismatch(Fs, i, v, A):
+    """A dimension of the data variable is unlimited iff the axis it stands for asked for it (when every axis of
+    the written fields that is encoded by that dimension asks the same)."""
+    F = Fs[i]
+    nd = len(F["data"])
+    dims = v["dims"]
+    if len(dims) < nd:
+        return f"data variable {v['name']!r} has {len(dims)} dimensions for {nd} data axes"
+    tail = dims[len(dims) - nd:]
+    for pos, ai in enumerate(F["data"]):
+        want = F["axes"][ai]["unlim"]
+        d = tail[pos]
+        if A["dims"][d][0] != F["axes"][ai]["size"]:
+            return f"dimension {d!r} has size {A['dims'][d][0]}, the axis has size {F['axes'][ai]['size']}"
+        if len(Fs) == 1 and A["dims"][d][1] != want:
+            return f"dimension {d!r} unlimited={A['dims'][d][1]} but the axis asked for {want}"
+    return None
+
+
+def oracle_field(c):
+    out = c.impl_out or ""
+    ex = c.extra if isinstance(c.extra, dict) else {}
+    if out.startswith("raised:"):
+        return f"write refused valid fields: {out} {ex.get('error')}"
+    if ex.get("repeated"):
+        return ex["repeated"]
+    if ex.get("wf") != "ok":
+        return f"file is not well formed: {ex.get('wf')}"
+    if ex.get("decode"):
+        return "independent decoder: " + ex["decode"]
+    if ex.get("unlim"):
+        return ex["unlim"]
+    return None
+
+
 # ============================================================================= framework entry points
-MAKERS = {"C08.glob": mk_glob, "C08.names": mk_names, "C08.struct": mk_struct, "C08.store": mk_store, "C08.emit": mk_emit}
+MAKERS = {"C08.field": mk_field, "C08.glob": mk_glob, "C08.names": mk_names, "C08.struct": mk_struct, "C08.store": mk_store, "C08.emit": mk_emit}
 
 
 def from_payload(stream, payload):
@@ -1402,8 +1687,10 @@ def from_payload(stream, payload):
 def gen(rng, tier, n):
     for i in range(n):
         r = (i % 20) / 20.0
-        if r < 0.40:
+        if r < 0.30:
             yield mk_glob(gen_glob(rng))
+        elif r < 0.45:
+            yield mk_field(GA.gen_case(rng))
         elif r < 0.60:
             yield mk_names(gen_names(rng))
         elif r < 0.80:
@@ -1426,6 +1713,8 @@ def impl(c):
         return impl_store(c)
     if c.stream == "C08.emit":
         return impl_emit(c)
+    if c.stream == "C08.field":
+        return impl_field(c)
     raise fw.HarnessError("unknown stream " + c.stream)
 
 
@@ -1448,6 +1737,12 @@ def agree(c):
         return bool(m) and _same_names(m.group(1), _model_new(c))
     if c.stream in ("C08.struct", "C08.emit"):
         return c.impl_out == c.model_out
+    if c.stream == "C08.store":
+        if not (c.impl_out or "").startswith("ok ") or c.model_out is None:
+            return True  # refused requests are the oracle's business
+        return store_types_observed(c.payload, c.extra) == c.model_out
+    if c.stream == "C08.field":
+        return c.impl_out == _model_new(c) or ((c.impl_out or "").startswith("raised:") and _model_new(c) == "refused")
     return True
 
 
@@ -1489,6 +1784,8 @@ def oracle(c):
         return oracle_store(c)
     if c.stream == "C08.emit":
         return oracle_emit(c)
+    if c.stream == "C08.field":
+        return oracle_field(c)
     return None
 
 
@@ -1542,6 +1839,18 @@ def classify(c):
                                       or (out == "ok" and "formula terms differ" in str(ex.get("decode")))):
             return "formula-terms-overwritten-on-shared-vertical-coordinate"
         return "unclassified-struct"
+    if c.stream == "C08.field":
+        ex = c.extra if isinstance(c.extra, dict) else {}
+        old = _model_old(c)
+        if out.startswith("raised:") and "name in use" in str(ex.get("error", "")) and old == "refused" \
+                and any(a["dc"] is not None and not (a["dc"]["ncvar"] or a["dc"]["std"]) and a["ncdim"]
+                        for F in p["fields"] for a in F["axes"]):
+            # an unnamed dimension coordinate took the netCDF dimension name of its axis, which is in use
+            return "dimension-coordinate-named-after-dimension-not-made-unique"
+        if ex.get("repeated") and old is not None and old == out and any(_twin_dimcoords(F) for F in p["fields"]):
+            # two axes of one field have equal dimension coordinates and were given one netCDF dimension
+            return "equal-dimension-coordinates-of-one-field-share-a-dimension"
+        return "unclassified-field"
     if c.stream == "C08.store":
         s, o = p["field"], p["opts"]
         if p.get("bad"):
@@ -1628,6 +1937,32 @@ def _variants(c):
             q["fields"] = [dict(props={k: v for k, v in f["props"].items() if k != n},
                                 ncg={k: v for k, v in f["ncg"].items() if k != n}) for f in fs]
             yield q
+    elif c.stream == "C08.field":
+        fs = p["fields"]
+        for i in range(len(fs)):
+            if len(fs) > 1:
+                yield dict(p, fields=fs[:i] + fs[i + 1:])
+        for i, F in enumerate(fs):
+            def put(G):
+                return dict(p, fields=fs[:i] + [G] + fs[i + 1:])
+            for j in range(len(F["cons"])):
+                yield put(dict(F, cons=F["cons"][:j] + F["cons"][j + 1:]))
+            for j in range(len(F["cms"])):
+                yield put(dict(F, cms=F["cms"][:j] + F["cms"][j + 1:]))
+            for j, a in enumerate(F["axes"]):
+                if a["dc"] is not None:
+                    yield put(dict(F, axes=F["axes"][:j] + [dict(a, dc=None)] + F["axes"][j + 1:]))
+                if a["ncdim"] is not None:
+                    yield put(dict(F, axes=F["axes"][:j] + [dict(a, ncdim=None)] + F["axes"][j + 1:]))
+                if a["unlim"]:
+                    yield put(dict(F, axes=F["axes"][:j] + [dict(a, unlim=False)] + F["axes"][j + 1:]))
+            # drop the last axis when nothing uses it
+            na = len(F["axes"])
+            if na > 1 and (na - 1) not in F["data"] and not any((na - 1) in c["axes"] for c in F["cons"]) \
+                    and not any((na - 1) in m for m in F["cms"]):
+                yield put(dict(F, axes=F["axes"][:-1]))
+        if p["opts"].get("coordinates"):
+            yield dict(p, opts=dict(p["opts"], coordinates=False))
     elif c.stream == "C08.store":
         for k in list(p["opts"]):
             if k != "fmt":
@@ -1681,4 +2016,4 @@ def shrink(c, run):
 def extra_coverage(run):
     return dict(generated_table=dict(description_of_file_contents_attributes=descr()),
                 note="C08.names and C08.struct build their protocol line from what the real write did (request log / "
-                     "abstract(file)); C08.store is oracle only")
+                     "abstract(file)); C08.store compares data types with the model and everything else with the oracle only")
